@@ -249,10 +249,28 @@ theorem escapePlain_no_angle : ∀ (s : Str), '<' ∉ escapePlain s ∧ '>' ∉ 
     simp only [escapePlain, List.mem_append, not_or]
     exact ⟨⟨hc.1, i1⟩, ⟨hc.2, i2⟩⟩
 
-/-- (3) a mustache is copied verbatim: everything from `{{` to the first `}}` goes out unchanged, escaping resumes after it -/
-theorem mustache_copied_verbatim (f : Nat) (r : Str) (e : Nat) (h : findClose r = some e) :
-    escapeText (f + 1) ('{' :: '{' :: r) = '{' :: '{' :: r.take (e + 2) ++ escapeText f (r.drop (e + 2)) := by
+/-- (3) a mustache — everything from `{{` to the first `}}` — goes through `writeExpr`, escaping resumes after it -/
+theorem mustache_written_as_expression (f : Nat) (r : Str) (e : Nat) (h : findClose r = some e) :
+    escapeText (f + 1) ('{' :: '{' :: r) = writeExpr ('{' :: '{' :: r.take (e + 2)) ++ escapeText f (r.drop (e + 2)) := by
   simp [escapeText, hasPrefix, h]
+
+/-- an expression whose `<` are not followed by a tag-opening character and whose `&` are not followed by a reference-opening character —
+    `{{ a < b }}`, `{{ a && b }}` — is copied verbatim -/
+theorem plain_expression_verbatim : ∀ (e : Str), (∀ pre post, e = pre ++ '<' :: post → startsTag post = false) →
+    (∀ pre post, e = pre ++ '&' :: post → startsRef post = false) → writeExpr e = e
+  | [], _, _ => rfl
+  | c :: r, h1, h2 => by
+    have ih := plain_expression_verbatim r (fun pre post he => h1 (c :: pre) post (by rw [he]; rfl)) (fun pre post he => h2 (c :: pre) post (by rw [he]; rfl))
+    simp only [writeExpr, exprPiece, ih]
+    by_cases hl : c = '<'
+    · subst hl
+      have := h1 [] r rfl
+      simp [this]
+    · by_cases ha : c = '&'
+      · subst ha
+        have := h2 [] r rfl
+        simp [this]
+      · simp [hl, ha]
 
 /-- outside mustaches escapeText escapes character by character -/
 theorem escapeText_plain_char (f : Nat) (c : Char) (r : Str) (hc : c ≠ '{') :
